@@ -104,7 +104,7 @@ def _ctor_args(a):
 
 def dummy_impl(t, ty):
     """an implementor with diverging bodies (only type-checked, never run)"""
-    L = [f"pub struct {ty};", f"impl {t.name} for {ty} {{"]
+    L = [f"pub struct {ty};", f"impl {t.use()} for {ty} {{"]
     for (name, attr, bound) in t.assocs():
         L.append(f"    type {name} = LeafImp;")
     for m in t.methods:
@@ -116,13 +116,14 @@ def dummy_impl(t, ty):
 def probes(mid, t):
     """extern declarations that force the lint to look at the instantiated opaque types"""
     n = t.name
+    ga = f", {t.generic}" if t.generic else ""
     return f"""
 extern "C" {{
-    pub fn probe_{mid}_box(o: &{n}Box<'static>);
-    pub fn probe_{mid}_arcbox(o: &{n}ArcBox<'static>);
-    pub fn probe_{mid}_mut(o: &{n}Mut<'static>);
-    pub fn probe_{mid}_ref(o: &{n}Ref<'static>);
-    pub fn probe_{mid}_arcref(o: &{n}ArcRef<'static>);
+    pub fn probe_{mid}_box(o: &{n}Box<'static{ga}>);
+    pub fn probe_{mid}_arcbox(o: &{n}ArcBox<'static{ga}>);
+    pub fn probe_{mid}_mut(o: &{n}Mut<'static{ga}>);
+    pub fn probe_{mid}_ref(o: &{n}Ref<'static{ga}>);
+    pub fn probe_{mid}_arcref(o: &{n}ArcRef<'static{ga}>);
 }}
 """
 
@@ -155,8 +156,8 @@ def _make_defs(seed, n_random, n_groups):
             break
         pick = rng.sample(range(len(rnd)), rng.randint(2, min(5, len(rnd))))
         nm = rng.randint(0, 2) if len(pick) > 2 else 1
-        mand = [rnd[i].name for i in pick[:nm]]
-        opt = [rnd[i].name for i in pick[nm:]]
+        mand = [rnd[i].use() for i in pick[:nm]]
+        opt = [rnd[i].use() for i in pick[nm:]]
         mand_txt = "{}" if not mand else (mand[0] if len(mand) == 1 else "{ " + ", ".join(mand) + " }")
         src = f"Gr{k}, {mand_txt}, {{ {', '.join(opt)} }}"
         mods = [f"r{i}" for i in pick]
@@ -175,7 +176,7 @@ extern "C" {{
             break
         pick = rng.sample(range(len(rnd)), 2)
         e = rng.sample(exts, rng.randint(2, 4))
-        src = f"Ge{k}, {rnd[pick[0]].name}, {{ {', '.join(e + [rnd[pick[1]].name])} }}"
+        src = f"Ge{k}, {rnd[pick[0]].use()}, {{ {', '.join(e + [rnd[pick[1]].use()])} }}"
         defs.append({"id": f"x{k}", "kind": "group", "src": src, "nontrivial": True, "label": "group-with-ext-traits", "uses": [f"r{i}" for i in pick], "lint": False, "extra": "//@@"})
     return defs
 
